@@ -294,6 +294,13 @@ func (mpt *MerklePatriciaTrie) SaveChanges(ctx context.Context, ndb NodeDB, incl
 			zap.Error(err))
 		return err
 	case <-doneC:
+		// doneC is closed after a failing worker has queued its error: when both are
+		// ready select picks either, so look for the error before reporting success
+		select {
+		case err := <-errC:
+			return err
+		default:
+		}
 	}
 	return nil
 }
